@@ -21,7 +21,8 @@ CONSTANTS NW,        \* threads_max
           Gives, Spaces,
           FlushActs, \* subset of {"FULL_FLUSH", "FULL_BARRIER"} the application may use
           HdrSz,     \* size of the Stream Header (1 unit in model checking, 12 bytes in traces)
-          TailSz     \* size of Index + Stream Footer (2 units in model checking)
+          TailSz,    \* size of Index + Stream Footer (2 units in model checking)
+          CountCalls \* BOOLEAN: count lzma_code calls (history variable for bounding; FALSE for liveness checking)
 
 W == 1..NW
 BufsLimit == 2 * NW
@@ -63,7 +64,7 @@ Call(a, g, s) ==
     /\ (m.flushing # "NONE" => a = m.flushing /\ g = 0)        \* same action, same amount of input
     /\ (a = "FINISH" => m.given + g = Total)
     /\ m' = [m EXCEPT !.act = a, !.inAvail = m.inAvail + g, !.given = m.given + g, !.outSpace = s, !.space0 = s,
-                      !.progress = FALSE, !.calls = m.calls + 1, !.hasBlocked = FALSE, !.pc = "run",
+                      !.progress = FALSE, !.calls = IF CountCalls THEN m.calls + 1 ELSE 0, !.hasBlocked = FALSE, !.pc = "run",
                       !.flushing = IF a = "RUN" THEN "NONE" ELSE a,
                       !.flushOffsets = IF a = "RUN" THEN m.flushOffsets ELSE m.flushOffsets \cup {m.given + g}]
     /\ UNCHANGED <<c, t>>
